@@ -667,7 +667,7 @@ func fieldNameFromParam(param *spec.Parameter) string {
 // A nil ErrorOnParamFunc must be evaluated as equivalent to panic().
 type ErrorOnParamFunc func(spec.Parameter, error) bool
 
-func (s *Spec) paramsAsMap(parameters []spec.Parameter, res map[string]spec.Parameter, callmeOnError ErrorOnParamFunc) {
+func (s *Spec) paramsAsMap(parameters []spec.Parameter, res map[string]spec.Parameter, callmeOnError ErrorOnParamFunc) bool {
 	for _, param := range parameters {
 		pr := param
 		if pr.Ref.String() == "" {
@@ -689,7 +689,7 @@ func (s *Spec) paramsAsMap(parameters []spec.Parameter, res map[string]spec.Para
 				continue
 			}
 
-			break
+			return false
 		}
 
 		objAsParam, ok := obj.(spec.Parameter)
@@ -698,12 +698,14 @@ func (s *Spec) paramsAsMap(parameters []spec.Parameter, res map[string]spec.Para
 				continue
 			}
 
-			break
+			return false
 		}
 
 		pr = objAsParam
 		res[mapKeyFromParam(&pr)] = pr
 	}
+
+	return true
 }
 
 // ParametersFor the specified operation id.
@@ -725,8 +727,9 @@ func (s *Spec) ParametersFor(operationID string) []spec.Parameter {
 func (s *Spec) SafeParametersFor(operationID string, callmeOnError ErrorOnParamFunc) []spec.Parameter {
 	gatherParams := func(pi *spec.PathItem, op *spec.Operation) []spec.Parameter {
 		bag := make(map[string]spec.Parameter)
-		s.paramsAsMap(pi.Parameters, bag, callmeOnError)
-		s.paramsAsMap(op.Parameters, bag, callmeOnError)
+		if s.paramsAsMap(pi.Parameters, bag, callmeOnError) {
+			s.paramsAsMap(op.Parameters, bag, callmeOnError)
+		}
 
 		var res []spec.Parameter
 		for _, v := range bag {
@@ -793,8 +796,9 @@ func (s *Spec) SafeParamsFor(method, path string, callmeOnError ErrorOnParamFunc
 
 	op, found := s.OperationFor(method, path)
 	if pi, ok := s.spec.Paths.Paths[path]; ok && found {
-		s.paramsAsMap(pi.Parameters, res, callmeOnError)
-		s.paramsAsMap(op.Parameters, res, callmeOnError)
+		if s.paramsAsMap(pi.Parameters, res, callmeOnError) {
+			s.paramsAsMap(op.Parameters, res, callmeOnError)
+		}
 	}
 
 	return res
